@@ -356,13 +356,23 @@ for _p in ["C01", "C04", "C05", "C06", "C07", "C08", "C09", "C10", "C11", "C12",
 
 # rules added after the first build: one sentence each, appended to the explanation / technique texts
 _ALSO = {
+    "C01": " Also: every routine that contracts a subset of a network's tensors and puts the result back decides the kept labels with "
+           "network-wide holder information (compute_contracted_inds / an ind_map), never with tensor_contract's local default; the "
+           "dtype TNLinearOperator advertises is computed over all of its tensors.",
+    "C02": " _unlink_inds is decided by abstract interpretation over the number of holders that remain (0, 1, >= 2).",
+    "C03": " Also: stored tensor data is never combined by broadcasting with a freshly built lower-rank array (positional alignment).",
+    "C05": " Also: memoised option parsers that distinguish True from 1 are typed caches; `absorb is None` is only tested on a "
+           "normalised value; generic and numba truncation take the renormalisation power from the same option; the cumulative "
+           "cutoff rules count on an uncapped spectrum. split-flags is decided by def-use, not by text.",
+    "C16": " Also: arrays handed to the accumulate-only matvec kernels are fresh zeros or fully zeroed on every path; the size a "
+           "threaded kernel partitions is an extent of an array it indexes directly by the block index.",
     "C06": " Also: every entry point accepting `dagger` applies or forwards it; swap routines keep the caller's site order; an index "
            "a gate routine leaves in the caller's network is named by rand_uuid() or a parameter, never a literal.",
-    "C07": " Also: sibling memoising methods key their caches on the same components; CircuitPermMPS records the permutation for "
+    "C07": " Also: copy() deep-copies option dicts that hold nested mutable per-object state; sibling memoising methods key their caches on the same components; CircuitPermMPS records the permutation for "
            "exactly the sites a swap moved; record clients follow self._psi.",
     "C09": " Also: a two-part compress(form=...) sweep spans the whole chain; the fit driver's sweep memory (which licenses skipping the "
            "environment rebuild) is a local, initialised to a constant and set after the sweep.",
-    "C10": " Also: the dense and LinearOperator forms of the local operator are built from the same index lists; the sweep memory that "
+    "C10": " Also: the matrix-free local operator advertises the common dtype of all its tensors; the dense and LinearOperator forms of the local operator are built from the same index lists; the sweep memory that "
            "licenses canonize=False never outlives, or lags behind, the sweep it remembers.",
     "C11": " Also: memoised gates are keyed on every mutable attribute they depend on; default terms are spread only over bonds with "
            "no term in either orientation; a term stored under the sorted pair is flipped when requested in the opposite order and "
@@ -370,12 +380,12 @@ _ALSO = {
     "C12": " Also: norm stripped through a view is accrued on the returned network; every guard comparing a size with max_bond "
            "compresses above / skips within the cap on the measured pair, and the gauge-only shortcut makes isometric the tensor "
            "whose outer size the guard bounded, in each ordering of the two sizes.",
-    "C13": " Also (structural parts of site-ordering and cache reuse): a set of the requested sites is never consumed by an "
-           "order-carrying operation; values cached in a caller-supplied `info` dict are keyed on every semantic parameter they "
-           "depend on.",
+    "C13": " Also (structural parts of site-ordering, cache reuse and the unnormalised value): a set of the requested sites is never "
+           "consumed by an order-carrying operation; values cached in a caller-supplied `info` dict are keyed on every semantic "
+           "parameter they depend on; boundary environments carry the exponent that equalize_norms stripped.",
     "C14": " Also: sibling agreement on the transposition of the two messages of a bond when reduced factors are built; every value "
            "route reads the (sign, exponent) accumulator.",
-    "C17": " Also: every index array that selects / reorders eigen- or singular values is an argsort of the values of the array it "
+    "C17": " Also: tensor-network linear operators advertise the common dtype of all their tensors (solvers allocate work arrays in it); every index array that selects / reorders eigen- or singular values is an argsort of the values of the array it "
            "permutes (through selector helpers), and arrays returned together are permuted together.",
     "C18": " Also: the table of right-hand sides is total over closed-system combinations and each entry's kind agrees with its key "
            "(ket/dop, ham(t) at the integrator's time for time-dependent keys, factor -i, hrho - hrho^dagger); the integrator is "
